@@ -508,5 +508,6 @@ def send_snapshot(model, root, top, nodes, cwd, tz="UTC"):
     return model.ask_raw("fs-end\t" + node_line(top, tz)) == "ok"
 
 
-def model_today(tz="UTC"):
-    return int((time.time() + tz_off(tz, time.time())) // 86400)
+def model_today(tz="UTC", now=None):
+    now = time.time() if now is None else now
+    return int((now + tz_off(tz, now)) // 86400)
